@@ -475,6 +475,22 @@ func runC13Mag(c C13MagCase) string {
 			return fmt.Sprintf("decimal exponent %d: reader on reference encoding: %v %s", e, rerr, model.DiffSeq(vals, got))
 		}
 		return ""
+	case "decexp-over":
+		// a binary decimal whose exponent lies outside int32 cannot be represented
+		// by ion.Decimal: the reader must refuse it, never hand out a wrapped exponent
+		e := int64(c.Bits)
+		if c.Neg {
+			e = -e
+		}
+		st.Eval(true, model.DigestBytes("decexp-over", []byte(fmt.Sprint(e))), "decexp-over")
+		for _, vals := range [][]model.Value{{model.DecV(big.NewInt(5), e, false)}, {model.ListV(model.DecV(big.NewInt(-12345), e, false), model.Int64V(1))}} {
+			dc := encodeDoc(vals, nil)
+			got, rerr := drive.Observe(ion.NewReaderBytes(dc.Doc))
+			if rerr == nil {
+				return fmt.Sprintf("binary decimal with exponent %d (outside int32) was read without error as %s\nbytes: % x", e, model.SeqString(got), dc.Doc)
+			}
+		}
+		return ""
 	case "sid":
 		// a symbol whose ID is 9 + maxID + 1 through a fixed table with an
 		// Adjust-ed import
@@ -662,6 +678,13 @@ func TestC13(t *testing.T) {
 		for _, e := range []uint64{0, 1, 62, 63, 64, 65, 8190, 8191, 8192, 8193, 1<<20 - 1, 1 << 20, 1<<20 + 1, 1<<27 - 1, 1 << 27, math.MaxInt32 - 1, math.MaxInt32} {
 			for _, neg := range []bool{false, true} {
 				if !yield(C13MagCase{What: "decexp", Bits: e, Neg: neg}) {
+					return
+				}
+			}
+		}
+		for _, e := range []uint64{1<<31 + 1, 1<<31 + 2, 1 << 32, 1<<32 + 5, 1<<33 - 1, 1 << 40, 1<<62 - 1} {
+			for _, neg := range []bool{false, true} {
+				if !yield(C13MagCase{What: "decexp-over", Bits: e, Neg: neg}) {
 					return
 				}
 			}
